@@ -22,7 +22,7 @@ BUDGET = {'quick': 240, 'thorough': 3000}
 
 
 def shards(tier):
-    return e1.std_shards(tier, with_p=True, with_big=True)
+    return e1.std_shards(tier, with_p=True, with_big=True, with_hist=True)
 
 
 def check_case(case, ctr):
@@ -87,6 +87,28 @@ def check_case(case, ctr):
         if rawset != gotset or len(raw) != len(got):
             bad('context-neighbors-raw', sorted(gotset), sorted(rawset), query=q)
             break
+        # other spellings of the same object set: repeats, other order, one-shot iterables, sets
+        if q and case.n <= 20:
+            forms = (('repeated', q + q[::-1]), ('doubled-first', [q[0]] + q),
+                     ('generator', (x for x in q)), ('iterator', iter(tuple(reversed(q)))),
+                     ('frozenset', frozenset(q)), ('dict-keys', dict.fromkeys(q).keys()))
+            stop = False
+            for fname, fq in forms:
+                try:
+                    alt = ctx.neighbors(fq)
+                    altset = {(tuple(a), tuple(b)) for a, b in alt}
+                    n_alt = len(alt)
+                except Exception as e_:
+                    common.library_exception(ID, case.ident(), e_)   # HarnessError unless from the library
+                    altset, n_alt = repr(e_), -1
+                ctr['calls'] += 1
+                if altset != gotset or n_alt != len(got):
+                    bad('context-neighbors-argument-form', sorted(gotset),
+                        altset if isinstance(altset, str) else sorted(altset), query=q, form=fname)
+                    stop = True
+                    break
+            if stop:
+                break
     # clause counter: a candidate closure swallowed a not-yet-tried object
     for e, _ in (ref.concepts if case.n <= 20 else ()):
         rest = [g for g in range(case.n) if g not in e]
